@@ -210,6 +210,20 @@ func bidConversationInputs(w *warm) []c18input {
 			c18Prelude.Store(string(out[len(out)-1].bytes), prelude)
 		}
 	}
+	// the same follow-up offers when the owner's counter offer is the active one (the new offer is compared with it)
+	counter := txb.Tx(&bid_action.CounterOffer{BidConvId: conv, AssetOwner: owner.Addr, Amount: txb.Amt("OLT", "30000000000000000000")}, txb.DefaultFee(), fmt.Sprintf("c18-bid-counter-%d", w.h), owner)
+	prelude2 := [][][]byte{{create}, {first}, {counter}}
+	for _, cur := range []string{"ETH", "TTC", "BTC", "VT", "XYZ", "", "OLT"} {
+		for _, val := range []string{"20000000000000000000", "0", "40000000000000000000"} {
+			n++
+			am := action.Amount{Currency: cur, Value: txb.Amt("OLT", val).Value}
+			out = append(out, c18input{"BID_CREATE.<conversation with a counter offer>", fmt.Sprintf("rebid amount=%s %q", val, cur), txb.Tx(&bid_action.CreateBid{BidConvId: conv, Bidder: bidder.Addr, Amount: am}, txb.DefaultFee(), fmt.Sprintf("c18-bid-re2-%d-%d", w.h, n), bidder)})
+			c18Prelude.Store(string(out[len(out)-1].bytes), prelude2)
+			n++
+			out = append(out, c18input{"BID_BIDDER_DECISION.<conversation with a counter offer>", fmt.Sprintf("decision after amount=%s %q", val, cur), txb.Tx(&bid_action.BidderDecision{BidConvId: conv, Bidder: bidder.Addr, Decision: bid_data.BidDecision(1 + n%2)}, txb.DefaultFee(), fmt.Sprintf("c18-bid-dec-%d-%d", w.h, n), bidder)})
+			c18Prelude.Store(string(out[len(out)-1].bytes), prelude2)
+		}
+	}
 	return out
 }
 
